@@ -326,4 +326,28 @@ inductive CapAdjust where
   | unknown
 deriving DecidableEq, Repr, Inhabited
 
+/-- C09: qruntime.runReconcile, `case reconcileError != nil`: the guard under which the per-item error
+    backoff supplies the requeue interval (`interval = adapter.getBackoffInterval(item.Key())`) -/
+inductive FailGuard where
+  | intervalZero   -- `if interval == 0 { … }`: whenever the failure carries no interval of its own
+  | notRequeued    -- `if !requeued { … }`: only when the error is not a RequeueError at all
+  | always         -- unguarded: the backoff interval replaces whatever the RequeueError asked for
+  | unknown
+deriving DecidableEq, Repr, Inhabited
+
+/-- C16: where rruntime.runOnce clears `adapter.outputTracker` -/
+inductive TrackerReset where
+  | deferred   -- a top-level statement of a deferred function of runOnce: on EVERY exit of ctrl.Run, a panic included
+  | afterRun   -- a plain statement after `err = adapter.ctrl.Run(…)`: not reached when ctrl.Run panics
+  | never      -- runOnce does not clear it
+  | unknown
+deriving DecidableEq, Repr, Inhabited
+
+/-- C16: the condition under which task.runWithRestarts takes the value of runWithPanicHandler for "finished" -/
+inductive TaskFinish where
+  | errNil             -- `err == nil`
+  | errNilOrCanceled   -- `err == nil || errors.Is(err, context.Canceled)`: an error wrapping context.Canceled ends the loop too
+  | unknown
+deriving DecidableEq, Repr, Inhabited
+
 end Cosi.Gen
